@@ -13,11 +13,14 @@ mod ldro;
 mod frame;
 mod maccmd;
 mod macops;
+mod asyncdev;
+mod nbdev;
 
 fn dispatch(op: &str, a: &[&str]) -> String {
     match op {
         "toa" | "toa_sweep" | "ldro_toa" | "delay_in_symbols" | "symbols_to_ms" => toa::run(op, a),
         "ldro" => ldro::run_op(a),
+        "nfd" | "nfd_sweep" => macops::nfd(op, a),
         "mc_parse" | "mc_read" | "mc_sweep" | "mc_build" | "mc_seq" | "ident" => maccmd::run_op(op, a),
         "build_data" | "build_jr" | "build_ja" | "parse_phy" | "parse_data" | "parse_jr" | "ja_decrypt" | "aes" | "cmac" => frame::run_op(op, a),
         _ => format!("UNKNOWN-OP {op}"),
@@ -32,6 +35,22 @@ fn main() {
     for line in stdin.lock().lines() {
         let line = line.unwrap();
         let toks: Vec<&str> = line.split_whitespace().collect();
+        if !toks.is_empty() && toks[0] == "ndev" {
+            let r = catch_unwind(AssertUnwindSafe(|| nbdev::run_history(&line)));
+            match r {
+                Ok(s) => writeln!(out, "{s}").unwrap(),
+                Err(_) => writeln!(out, "PANIC").unwrap(),
+            }
+            continue;
+        }
+        if !toks.is_empty() && toks[0] == "adev" {
+            let r = catch_unwind(AssertUnwindSafe(|| asyncdev::run_history(&line)));
+            match r {
+                Ok(s) => writeln!(out, "{s}").unwrap(),
+                Err(_) => writeln!(out, "PANIC").unwrap(),
+            }
+            continue;
+        }
         if !toks.is_empty() && toks[0] == "mac" {
             let r = catch_unwind(AssertUnwindSafe(|| macops::run_history(&line)));
             match r {
